@@ -13,7 +13,7 @@ use miniz_oxide::{DataFormat, MZFlush};
 use serde_json::{json, Value};
 use std::collections::BTreeSet;
 
-pub const OUT_LENS: [usize; 14] = [0, 1, 2, 3, 5, 6, 7, 8, 16, 33, 64, 300, 32768, 40000];
+pub const OUT_LENS: [usize; 15] = [0, 1, 2, 3, 5, 6, 7, 8, 16, 33, 64, 300, 1024, 32768, 40000];
 
 #[derive(Clone, Copy, Debug, PartialEq, Eq)]
 pub struct Call {
@@ -125,6 +125,21 @@ pub fn pool() -> Vec<Vec<u8>> {
             }
             t.extend(tail.iter().cloned());
             let mut b = StreamBuilder::new(None);
+            b.fixed(&t, true);
+            v.push(b.finish().bytes);
+        }
+    }
+    // (e) matches whose distance equals the ring size (source position == write position after the
+    // ring has been filled exactly once), lengths 3 / 10 / 258, with a tail so that the fast loop runs
+    {
+        use crate::gen::StreamBuilder;
+        use crate::refmodel::Token;
+        for l in [1024usize] {
+            let hist: Vec<u8> = (0..l).map(|i| (i * 13 + i / 7) as u8).collect();
+            let mut t = vec![Token::Lit(b'x'), Token::Match { len: 10, dist: l as u16 }, Token::Match { len: 258, dist: l as u16 }, Token::Match { len: 3, dist: l as u16 }];
+            t.extend((0..40u8).map(|i| Token::Lit(0x90 + i)));
+            let mut b = StreamBuilder::new(None);
+            b.stored(&hist, false);
             b.fixed(&t, true);
             v.push(b.finish().bytes);
         }
@@ -280,7 +295,7 @@ fn second_calls(first: &Call, consumed: usize, pool: &[Vec<u8>], flag_menu: &[u3
     inputs.push((usize::MAX, 0, 6, 0x00));
     inputs.push((usize::MAX, 0, 20, 0xff));
     inputs.push((usize::MAX, 0, 20, 0x55));
-    let lens: &[usize] = if full_geo { &OUT_LENS } else { &[0, 3, 8, 20, 33, 32768] };
+    let lens: &[usize] = if full_geo { &OUT_LENS } else { &[0, 3, 8, 20, 33, 1024, 32768] };
     for (ii, &(src, off, n, gar)) in inputs.iter().enumerate() {
         for &f in flag_menu {
             for &ol in lens {
@@ -314,7 +329,12 @@ pub fn run(tier: &str) -> i32 {
     }).collect();
     let all_flags: Vec<u32> = if cfg!(feature = "bb") { all_flags.iter().flat_map(|&f| [f, f | 128]).collect() } else { all_flags };
     let reduced_flags: Vec<u32> = vec![0, F_FLAT, F_ZLIB, F_ZLIB | F_FLAT, F_MORE, F_MORE | F_FLAT, F_IGN | F_ZLIB | F_FLAT, F_ADLER];
-    let firsts = first_calls(&pool, th);
+    let mut firsts = first_calls(&pool, th);
+    // quick: the plain-release pass (no debug assertions / overflow checks) re-runs every other
+    // first call of the checked pass
+    if !th && std::env::var("MC_PART").map(|p| p == "fast").unwrap_or(false) {
+        firsts = firsts.into_iter().step_by(2).collect();
+    }
     let accs = par_for(firsts.len(), Acc::default, |i, acc| {
         watchdog::tick(i as u64, 0);
         let c1 = firsts[i];
